@@ -53,8 +53,10 @@ NAOpt(k, det, v) == IF det THEN (k :> v) ELSE NAE0        \* a key that is state
 \* LWS: none, SP, HT, CRLF SP (fold), SP HT, CRLF HT, SP CRLF SP
 NAWs(i) == CASE i = 0 -> WS0 [] i = 1 -> WS1 [] i = 2 -> WSH [] i = 3 -> WSF [] i = 4 -> WS2 [] i = 5 -> WSFH [] i = 6 -> WSSF
 
+\* display names: none, token, several tokens, quoted, quoted with escapes and , ; < > inside, empty quotes, quoted with a fold
 NADisp(i) == CASE i = 0 -> D_none [] i = 1 -> D_tok [] i = 2 -> D_toks [] i = 3 -> D_q [] i = 4 -> D_qesc [] i = 5 -> D_qempty
-NNADisp == 5
+               [] i = 6 -> D_qfold
+NNADisp == 6
 \* URI texts free of the delimiters; 5, 6 and 7 (";" "?" "," inside, URI parameters named like the header parameters)
 \* only inside angle brackets
 NAUri(i) == CASE i = 1 -> U_sip [] i = 2 -> U_sips [] i = 3 -> U_tel [] i = 4 -> U_x [] i = 5 -> U_params [] i = 6 -> U_comma
@@ -68,7 +70,12 @@ NAPName(i) ==
     [] i = 7 -> [t |-> P_lr, r |-> "lr"]            [] i = 8 -> [t |-> P_LR, r |-> "lr"]
     [] i = 9 -> [t |-> P_other, r |-> "other"]      [] i = 10 -> [t |-> P_tagx, r |-> "other"]
     [] i = 11 -> [t |-> P_ta, r |-> "other"]
-NNAPName == 11
+    \* more letter cases and near misses (a name that is a prefix / an extension of a known one is just another parameter)
+    [] i = 12 -> [t |-> P_tAG, r |-> "tag"]         [] i = 13 -> [t |-> P_Expires, r |-> "expires"]
+    [] i = 14 -> [t |-> P_Lr, r |-> "lr"]           [] i = 15 -> [t |-> P_expire, r |-> "other"]
+    [] i = 16 -> [t |-> P_expiress, r |-> "other"]  [] i = 17 -> [t |-> P_qq, r |-> "other"]
+    [] i = 18 -> [t |-> P_l, r |-> "other"]         [] i = 19 -> [t |-> P_lrx, r |-> "other"]
+NNAPName == 19
 
 \* parameter values: eq = an "=" is written; num = the text is a digit string (an expires value);
 \* q = the qvalue times 1000, -1 when the text is not a valid qvalue ("0" ["." 0*3DIGIT] / "1" ["." 0*3("0")])
@@ -90,7 +97,11 @@ NAPVal(i) ==
     [] i = 14 -> NAPV(TRUE, PV_60, TRUE, -1)
     [] i = 15 -> NAPV(TRUE, PV_q025, FALSE, 250)
     [] i = 16 -> NAPV(TRUE, PV_q0000, FALSE, 0)
-NNAPVal == 16
+    [] i = 17 -> NAPV(TRUE, PV_q1dot, FALSE, 1000)      \* "1."
+    [] i = 18 -> NAPV(TRUE, PV_q0005, FALSE, 5)
+    [] i = 19 -> NAPV(TRUE, PV_q0999, FALSE, 999)
+    [] i = 20 -> NAPV(TRUE, PV_qfold, FALSE, -1)        \* quoted value with a fold inside
+NNAPVal == 20
 
 \* uint32 of a digit string, saturated at 2^32-1 (limbs <<lo, hi>>)
 NASat32(ds) == IF DecFits(ds, 2) THEN DecValue(ds, 2) ELSE U32Max
